@@ -336,6 +336,27 @@ def c09_constants(w, act, st, rec, fresh, recF):
             w.probe("c09_node_only_parameter_as_function_of_time")
         else:
             w.probe("c09_node_only_parameter_values_outdated")  # horizon / grid changed since the values were sampled
+    # per-interval scalar parameters anywhere (dynamics, integrals, constraints): with a method that never evaluates the
+    # model at the right end of an interval (explicit Euler; collocation at interior Legendre points) and fixed node times,
+    # column k on interval k is the same as a piecewise constant function of time written in its place
+    m_ = spec.method or {}
+    interior = (m_.get("cls") in ("SingleShooting", "MultipleShooting") and m_.get("intg") == "expl_euler" and not spec.nxt) or \
+               (m_.get("cls") == "DirectCollocation" and m_.get("scheme") == "legendre")
+    if interior and tc is not None:
+        N_ = m_["N"]
+        for p in spec.names("parameter"):
+            s = spec.sym(p)
+            if s.get("grid", "") != "control" or s.get("rows", 1) * s.get("cols", 1) != 1 or p in exprs or p not in spec.values:
+                continue
+            a = np.array(raw_value(spec.values[p]), dtype=float).flatten()
+            ncol = N_ + 1 if s.get("include_last") else N_
+            if a.size == 1:
+                a = np.full(ncol, float(a[0]))
+            if a.size != ncol:
+                continue
+            vals = [float(x) for x in a] + ([] if s.get("include_last") else [float(a[-1])])  # (rockit: last column at tf)
+            exprs[p] = ["pwg", vals, [float(x) for x in tc]]
+            w.probe("c09_per_interval_parameter_as_piecewise_constant")
     if not consts and not exprs:
         return
     # a guess expression may not mention parameters in this workload, so guesses carry over unchanged
@@ -352,14 +373,17 @@ def c09_constants(w, act, st, rec, fresh, recF):
     from .seams import well_conditioned
 
     pts = well_conditioned(rec, recC)
+    # an adaptive built-in integrator (cvodes / idas / collocation with a rootfinder) reproduces itself only within its
+    # own tolerance when the same number arrives as a parameter or as a constant
+    rt, at = (1e-5, 1e-7) if (spec.method or {}).get("intg") in ("cvodes", "idas", "collocation") else (1e-8, 1e-10)
     if len(pts) < len(rec["f"]):
         w.probe("c09_ill_conditioned_probe_points_skipped", len(rec["f"]) - len(pts))
     for what, a, b in (("f", [rec["f"][i] for i in pts], [recC["f"][i] for i in pts]), ("lbg", rec["lbg"], recC["lbg"]), ("ubg", rec["ubg"], recC["ubg"]), ("x0", rec["x0"], recC["x0"])):
-        if not _close(a, b, rtol=1e-8, atol=1e-10):
+        if not _close(a, b, rtol=rt, atol=at):
             raise Violation("param-vs-constant:" + what, "%s differs between the parametric OCP and the one with constants: %s vs %s" % (
                 what, np.round(np.asarray(a, dtype=float), 8).tolist()[:8], np.round(np.asarray(b, dtype=float), 8).tolist()[:8]))
     for i in pts:
-        if not _close(rec["g"][i], recC["g"][i], rtol=1e-8, atol=1e-10):
+        if not _close(rec["g"][i], recC["g"][i], rtol=rt, atol=at):
             raise Violation("param-vs-constant:g", "g differs at probe %d between the parametric OCP and the one with constants" % i)
     w.probe("c09_constants_equal")
     # read-back: sampling a per-interval parameter on the control grid returns column k at node k and, at the final
@@ -386,6 +410,21 @@ def c09_constants(w, act, st, rec, fresh, recF):
                 raise Violation("param-sample", "sample(%s, grid='control') reads %s, values given %s (include_last=%s)" % (
                     p, np.round(got, 6).tolist(), np.round(exp, 6).tolist(), bool(s.get("include_last"))))
             w.probe("c09_param_sample_readback")
+            # the same on the refined integrator grid: every point of interval k shows column k, the final point the
+            # final node's value
+            M_ = spec.method.get("M", 1)
+            try:
+                e_fine = act.ocp.sample(act.syms[p], grid="integrator", refine=2)[1]
+                got = _eval(opti, rec, e_fine)
+            except Exception:
+                w.probe("c09_refined_sample_unavailable")
+                continue
+            per = M_ * 2
+            expf = np.hstack([np.repeat(a[:, k:k + 1], per, axis=1) for k in range(N)] + [exp[:, -1:]])
+            if got.shape != expf.shape or not np.allclose(got, expf, rtol=1e-12, atol=1e-12):
+                raise Violation("param-sample", "sample(%s, grid='integrator', refine=2) reads %s, values given imply %s (include_last=%s)" % (
+                    p, np.round(got, 6).tolist(), np.round(expf, 6).tolist(), bool(s.get("include_last"))))
+            w.probe("c09_param_refined_sample_readback")
     # the solver-visible parameter vector, predicted entry by entry by the model
     created = expected_p(spec)
     if created is not None and "_opti" in rec:
